@@ -89,12 +89,13 @@ def factory(rnd, ca):
     out.append(("Ace+members", ace_members, f"S={smem} D={dmem}"))
     lines = [rnd.choice(["remark = B1", "remark t"]) if rnd.random() < 0.25 else _ace_line(rnd, ca, plat, light=True)
              for _ in range(rnd.randint(1, 5))]
-    out.append(("AceGroup", lambda: ca.AceGroup("\n".join(lines), **kw), str(lines)))
+    ncwb = rnd.choice([16, 16, 20, 30, 12])       # the limit of non-contiguous wildcard bits travels with the data
+    out.append(("AceGroup", lambda: ca.AceGroup("\n".join(lines), max_ncwb=ncwb, **kw), f"max_ncwb={ncwb} {lines}"))
     head = "ip access-list extended A" if plat == "ios" else "ip access-list A"
-    akw = dict(kw, input=["Gi1"], output=["Gi2", "Gi3"], indent=rnd.choice([" ", "  ", "    "]))
-    out.append(("Acl", lambda: ca.Acl("\n".join([head] + lines), **akw), str(lines)))
+    akw = dict(kw, input=["Gi1"], output=["Gi2", "Gi3"], indent=rnd.choice([" ", "  ", "    "]), max_ncwb=ncwb)
+    out.append(("Acl", lambda: ca.Acl("\n".join([head] + lines), **akw), f"max_ncwb={ncwb} {lines}"))
     glines = ["remark = B1"] + lines + ["remark = B2"] + lines[:1]
-    out.append(("Acl(group_by)", lambda: ca.Acl("\n".join([head] + glines), group_by="= ", **akw), str(glines)))
+    out.append(("Acl(group_by)", lambda: ca.Acl("\n".join([head] + glines), group_by="= ", **akw), f"max_ncwb={ncwb} {glines}"))
 
     def acl_members():
         a = ca.Acl(f"{head}\n permit ip {gkw} S any\n permit ip any {gkw} D", **kw)
@@ -298,6 +299,9 @@ def check_object(ca, name, make, text, plat):
             e.uuid, e.note = f"ID-{i}", f"n{i}"
         want = {f"ID-{i}": f"n{i}" for i in range(len(ents))}
         leaf = {f"ID-{i}" for i, e in enumerate(ents) if not isinstance(e, ca.AceGroup)}
+        if tname == "group":      # group() merges a repeated heading remark (C15 owns that): headings are exempt
+            leaf = {f"ID-{i}" for i, e in enumerate(ents) if not isinstance(e, ca.AceGroup)
+                    and not (isinstance(e, ca.Remark) and e.text.startswith("= "))}
         if tname == "platform" and s.platform == "ios":        # towards NX-OS multi-port entries are split
             leaf = {f"ID-{i}" for i, e in enumerate(ents) if not isinstance(e, ca.AceGroup) and not _multi(e)}
         try:
